@@ -197,7 +197,9 @@ pub fn hols_rel(spread: i64) -> impl Strategy<Value = Vec<i64>> {
     let nr = if spread > 100 { 8 } else { 4 };
     let ns = if spread > 100 { 16 } else { 8 };
     let runs = proptest::collection::vec(
-        (-spread..=spread, prop_oneof![4 => 1i64..=4, 1 => 5i64..=12]),
+        // mostly short runs; now and then a whole month, or a closure of 100-160 days (a long market
+        // suspension; a calendar that lists everything but a few dealing days)
+        (-spread..=spread, prop_oneof![40 => 1i64..=4, 10 => 5i64..=12, 2 => 26i64..=36, 1 => 100i64..=160]),
         0..nr,
     );
     let singles = proptest::collection::vec(-(spread + spread / 3)..=(spread + spread / 3), 0..ns);
